@@ -51,7 +51,7 @@ ASSUMPTIONS = [
     'an error that a short-circuiting evaluation could legitimately skip (after a FALSE in AND, after a TRUE in OR, '
     'after the first true IFS condition) may yield either the short-circuit value or the error; with several errors '
     'any one of them is accepted; an error in the unselected branch of IF must not surface (IF returns the other '
-    'argument); errors among SWITCH cases and as ISEVEN/ISODD arguments are not demanded',
+    'argument); an error among the cases of SWITCH may propagate or be passed over (c12.switch_equality: never the result paired with it); errors as ISEVEN/ISODD arguments are not demanded',
     'SWITCH equality is the spreadsheet = (C07: number < text < logical, hence TRUE<>1); 2 equals 2.0; text '
     'equality is only used on identical / different lower-case strings in c12.switch; c12.switch_equality compares SWITCH with the = operator itself on 16 x 16 values incl. blanks',
     'dates: ISTEXT/ISLOGICAL/ISBLANK/ISERROR must be false, ISNUMBER is free; arrays as predicate arguments: only the '
@@ -496,7 +496,8 @@ class SwitchEquality(Sub):
     name = 'c12.switch_equality'
     rule = ('"the first case equal to the target": equal as the = operator of the same library finds them - SWITCH(t,c,"hit","miss") = '
             'IF(t=c,"hit","miss") for every ordered pair of 16 values (blank, 0, 0.0, -0.0, 1, 1.0, 2.5, "", "a", "A", "1", TRUE, FALSE, a '
-            'date-time, its serial, a one-cell range holding a blank), target and case through variables; non-trivial = all')
+            'date-time, its serial, a one-cell range holding a blank), target and case through variables; with an error value (1/0, a host-made #N/A, '
+            'a one-cell range holding #NUM!) as a case in front: that error or the same outcome, never the result paired with the error; non-trivial = all')
     min_cases = 200
     min_nontrivial = 200
     POOL = [None, 0, 0.0, -0.0, 1, 1.0, 2.5, '', 'a', 'A', '1', True, False, {'$dt': '2020-01-01T00:00:00'}, 43831, [[None]]]
@@ -516,6 +517,14 @@ class SwitchEquality(Sub):
         if a != b:
             return fail('SWITCH(xt,xc,"hit","miss") = %r but IF(xt=xc,"hit","miss") = %r with xt = %r, xc = %r: the case is %s to the target under =' % (
                 a, b, t, c, 'equal' if b == ['v', 'hit'] else 'not equal'), b, a)
+        # an error value among the cases is equal to no target: the outcome is that error or what the other cases give (which of
+        # the two is not demanded) - never the result paired with the error
+        for etext, evars, code in (('1/0', {}, '#DIV/0!'), ('xe', {'xe': env.err.XLError('#N/A')}, '#N/A'), ('xe', {'xe': [[env.dec({'$err': '#NUM!'})]]}, '#NUM!')):
+            f = 'SWITCH(xt,%s,"broken",xc,"hit","miss")' % etext
+            o = env.evo(f, dict(vars_, **evars))
+            if o != a and o != ['e', code]:
+                return fail('%s with xt = %r, xc = %r%s gives %r: the error %s is no case equal to the target - expected that error or %r' % (
+                    f, t, c, (', xe = %r' % (evars['xe'],)) if evars else '', o, code, a), a, o)
         return None
 
 
